@@ -104,6 +104,10 @@ def gen_c01(tier, seed):
     for n in list(range(1, 13)) + [20, 50]:
         for e in QR_LEVELS if thorough else ('L', 'Q'):
             add(call('make', gen.hanzi(r, n), mode='hanzi', error=e, boost_error=r.choice((True, False))))
+    # hanzi boundary code points given as bytes (A1A1, AAFE, B0A1, FAFE and neighbours of the second-byte range)
+    for pair in (b'\xa1\xa1', b'\xaa\xfe', b'\xb0\xa1', b'\xfa\xfe', b'\xa9\xa1\xb0\xfe', b'\xd7\xf9\xd8\xa1'):
+        add(call('make', pair, mode='hanzi'))
+        add(call('make', pair * 3, mode='hanzi', error='M', boost_error=False))
     # (f) integers
     for i in (0, 7, 12, 123, 1234, 1234567, 10 ** 20 + 7, int(gen.digits(r, 40)) + 10 ** 39):
         add(call('make', i))
